@@ -27,7 +27,7 @@ class Inconclusive(BaseException):
 
 class Stats:
     FIELDS = ('paths', 'branches', 'feas_queries', 'queries', 'unsat', 'sat', 'unknown', 'solver_s',
-              'aborted_paths', 'obligations', 'concrete_checks')
+              'aborted_paths', 'obligations', 'concrete_checks', 'x_checked', 'x_agree', 'x_unknown', 'x_disagree')
 
     def __init__(self):
         for f in self.FIELDS:
@@ -157,7 +157,46 @@ class Engine:
         self.stats.solver_s += time.time() - t0
         rs = str(r)
         setattr(self.stats, rs, getattr(self.stats, rs) + 1)
+        if rs == 'unsat' and XSOLVER['every']:
+            self._second_solver(negated_goal)
         return rs, model
+
+    def _second_solver(self, negated_goal):
+        """differential check of the encoding: every k-th `unsat` verdict of z3 is put to cvc5 (SMT-LIB2 file, small time limit).  cvc5 `sat`
+        against z3 `unsat` is a disagreement (reported, makes the run inconclusive); cvc5 unknown / timeout is only counted."""
+        XSOLVER['n'] += 1
+        if XSOLVER['n'] % XSOLVER['every'] or self.stats.x_checked >= XSOLVER['max']:
+            return
+        import subprocess, tempfile, os
+        s2 = z3.Solver()
+        s2.add(self.constraints)
+        s2.add(negated_goal)
+        txt = s2.to_smt2()
+        if len(txt) > 400000:
+            return
+        self.stats.x_checked += 1
+        fd, path = tempfile.mkstemp(suffix='.smt2', prefix='symx_x_')
+        try:
+            with os.fdopen(fd, 'w') as f:
+                f.write('(set-logic ALL)\n' + txt)
+            try:
+                out = subprocess.run(['cvc5', '--lang=smt2', f'--tlimit={XSOLVER["tlimit_ms"]}', path], capture_output=True, text=True, timeout=XSOLVER['tlimit_ms'] / 1000 + 5).stdout
+            except Exception:
+                out = 'unknown'
+        finally:
+            try:
+                os.unlink(path)
+            except OSError:
+                pass
+        first = (out.strip().splitlines() or ['unknown'])[0].strip()
+        if '(error' in out:
+            first = 'unknown'
+        if first == 'unsat':
+            self.stats.x_agree += 1
+        elif first == 'sat':
+            self.stats.x_disagree += 1
+        else:
+            self.stats.x_unknown += 1
 
     def _cone(self, goal):
         if not hasattr(self, '_cvars'):
@@ -194,6 +233,8 @@ class Engine:
                     changed = True
         return [c for c, k in zip(self.constraints, keep) if k]
 
+
+XSOLVER = {'every': int(__import__('os').environ.get('SYMX_XSOLVER_EVERY', '0') or 0), 'max': 12, 'tlimit_ms': 4000, 'n': 0}
 
 ENG: Engine | None = None
 
